@@ -71,6 +71,17 @@ def make_api(it, session: Session):
         it.path.notes.setdefault("inputs", {})[name] = ("fixed", ft.name)
         return FixedV(ft, ir.var(name, ft.minval, ft.maxval))
 
+    @reg("sym_list")
+    def sym_list(it_, a, k):
+        """sym_list(name, n, fixedint type): a list of n arbitrary values of that type, read through an uninterpreted
+        function when indexed symbolically (array theory instead of n-way ite chains)."""
+        name, n, ft = a[0], a[1], a[2]
+        if not isinstance(ft, FixedType):
+            raise Unsupported("sym_list needs a fixedint type")
+        it.path.notes.setdefault("inputs", {})[name] = ("list", n, ft.name)
+        items = [FixedV(ft, ir.app(name, ir.const(j), ft.minval, ft.maxval)) for j in range(n)]
+        return LogList(items, uf=name, wrap=ft, lo=ft.minval, hi=ft.maxval)
+
     @reg("sym_map")
     def sym_map(it_, a, k):
         """A dict[int, value] with arbitrary content. wrap: fixedint type of the values (or None for ints in [lo,hi])."""
@@ -167,6 +178,8 @@ def make_api(it, session: Session):
                 flds[f] = snap(x, seen, ignore)
             items = [snap(x, seen, ignore) for x in v.items] if v.items is not None else None
             return ("obj", v.cls.qualname, idx, flds, items)
+        if isinstance(v, LogList):
+            return ("tuple", [snap(x, seen, ignore) for x in it.iterate(v)])
         if isinstance(v, list):
             if id(v) in seen:
                 return ("ref", seen[id(v)])
